@@ -588,5 +588,5 @@ end
 theorem eraseTrims_idem (ops : List WOp) : eraseTrims (eraseTrims ops) = eraseTrims ops := by
   simp [eraseTrims, List.filter_filter]
 
-/-- every chunk admitted: the calculus then speaks about the operations only -/
+/-- every chunk allowed: the calculus then speaks about the operations only -/
 theorem ctxChunks_true (c : RCtx) : CtxChunks (fun _ => True) c := ⟨fun _ _ _ _ _ => trivial, fun _ _ _ _ _ => trivial, fun _ _ => trivial⟩
